@@ -681,7 +681,7 @@ func init() {
 			c.Correspondence("mutated unit replayed through the model receiver (StreamWire.drain / PacketWire.parse) with the ideal AEAD keyed by the honest triples seen on the wire; TCP: delivered byte count, UDP: accept/reject (acknowledged before any genuine copy arrived)")
 			var cases []c04Case
 			cases = append(cases, c04LoadCorpus(c)...)
-			cases = append(cases, genC04(c.Rand, c.Thorough())...)
+			cases = append(cases, genC04(c.Rand, c.Thorough() || c.Search)...) // a broken obligation widens the search
 			for i := 0; i < 3 && i < len(cases); i++ {
 				c.Sample(cases[i])
 			}
